@@ -62,6 +62,9 @@ def explore(tier, seed):
                         continue  # five files: the same pattern set in every file (all 120/720 orders x every fault)
                     for explicit in (False, True):
                         chunks.append((engine, fmt, n, npat, explicit))
+    for engine in sorted(ENGINES):
+        for fmt in ("bumpver.toml", "setup.cfg"):
+            chunks.append(("@repeated", engine, fmt))
     return pool.run_chunks(run_chunk, chunks)
 
 
@@ -90,9 +93,78 @@ def make_project(engine, fmt, names, npat, order, explicit, fault):
     return files
 
 
+def repeated_entry_cases(st, engine, fmt):
+    """src/a.txt is reached by the glob entry (pattern 0) and by an explicit entry (pattern 1); another path lies
+    between them in expansion order.  Fault: the occurrence of either entry's pattern is missing."""
+    E = ENGINES[engine]
+    for fault_pat in (None, 0, 1):
+        for first in ("glob", "explicit"):
+            for mode in ("dry", "real", "commit"):
+                lines_a = ["header a", E["occ"][0], E["occ"][1], "footer"]
+                if fault_pat is not None:
+                    lines_a[1 + fault_pat] = "xxx=" + E["old"]
+                glob_entry = ("src/*.txt", [E["pats"][0]])
+                expl_entry = ("src/a.txt", [E["pats"][1]])
+                other = ("other.txt", [E["pats"][0]])
+                entries = [glob_entry, other, expl_entry] if first == "glob" else [expl_entry, other, glob_entry]
+                files = {
+                    fmt: pt.config_text(fmt, E["vp"], E["old"], entries).encode(),
+                    "src/a.txt": ("\n".join(lines_a) + "\n").encode(),
+                    "src/b.txt": ("header b\n" + E["occ"][0] + "\nfooter\n").encode(),
+                    "other.txt": ("x\n" + E["occ"][0] + "\n").encode(),
+                    "bystander.txt": b"ver=1.2.3;\n",
+                }
+                world.clear_dir(".")
+                world.write_tree(files)
+                args = ["update", "--no-fetch", "--patch"]
+                fake = None
+                if mode == "dry":
+                    args.append("--dry")
+                if mode == "commit":
+                    os.mkdir(".git")
+                    args += ["--commit", "--tag-commit", "--push"]
+                    fake = fakevcs.install(fakevcs.FakeVCS("git", tags_all=["1.2.1"], status=[]))
+                try:
+                    o = world.cli(*args)
+                finally:
+                    fakevcs.uninstall()
+                st.evaluations += 1
+                after = world.read_tree(".")
+                case = {"engine": engine, "format": fmt, "repeated_entry": True, "first": first, "fault_pattern": fault_pat, "mode": mode}
+                st.observe((case, o.exit, o.crashed, sorted(after.items())))
+                if fault_pat is None:
+                    st.outcomes["control:" + ("ok" if o.exit == 0 else "FAILED")] += 1
+                    if o.exit != 0:
+                        st.violation(f"C06:harness-control-run-failed:{engine}:{mode}:repeated-entry", case, {"log": o.log[-4:], "crashed": o.crashed})
+                    continue
+                st.validated += 1
+                st.nontriv(case)
+                changed = sorted(k for k in set(files) | set(after) if files.get(k) != after.get(k))
+                tail = f"nomatch:repeated-entry:{mode}"
+                if o.exit == 0:
+                    st.outcomes["violation"] += 1
+                    st.violation(f"C06:faulted-update-exits-0:{tail}", case, {"log": o.log[-3:]})
+                if changed:
+                    st.outcomes["violation"] += 1
+                    st.violation(f"C06:files-changed-by-failed-update:{tail}", case, {"changed": changed, "exit": o.exit})
+                if fake is not None and [e for e in fake.effect_names() if e != "fetch"]:
+                    st.outcomes["violation"] += 1
+                    st.violation(f"C06:vcs-effects-after-failed-rewrite:{tail}", case, {"effects": fake.effect_names()})
+                if o.exit != 0 and not changed:
+                    st.outcomes["refused-cleanly:nomatch:repeated-entry"] += 1
+
+
 def run_chunk(chunk):
     import datetime as dt
 
+    if chunk[0] == "@repeated":
+        st = Stats()
+        world.set_today(dt.date(2033, 3, 3))
+        d = pool.fresh_dir("c06r")
+        os.chdir(d)
+        repeated_entry_cases(st, chunk[1], chunk[2])
+        os.chdir("/")
+        return st
     engine, fmt, n, npat, explicit = chunk
     st = Stats()
     world.set_today(dt.date(2033, 3, 3))
@@ -183,6 +255,10 @@ def replay(case, st):
     world.set_today(dt.date(2033, 3, 3))
     d = pool.fresh_dir("c06r")
     os.chdir(d)
+    if case.get("repeated_entry"):
+        repeated_entry_cases(st, case["engine"], case["format"])
+        os.chdir("/")
+        return
     run_one(st, case["engine"], case["format"], case["files"], tuple(case["patterns_per_file"]), tuple(case["order"]),
             case["explicit_config_entry"], tuple(case["fault"]) if case["fault"] else None, case["mode"])
     os.chdir("/")
